@@ -110,6 +110,7 @@ class Pipeline:
         if p.returncode != 0:
             raise Broken("cannot build cmd/spec: %s" % (p.stdout + p.stderr)[-2000:])
         self.cases = []
+        self.svc_scripts = None         # (file with scripts of SvcCall.tla, limit, seed): services of family svc are executed
 
     # ---- step 1: sources and the real compiler --------------------------------------------
     def add(self, recs):
@@ -260,6 +261,24 @@ class Pipeline:
         os.makedirs(d, exist_ok=True)
         with open(os.path.join(d, "reg.go"), "w") as fh:
             fh.write("\n".join(lines))
+        if rec.get("svc") and rec["verdict"] == "accept" and self.svc_scripts:
+            self._write_svc(c, d)
+
+    def _write_svc(self, c, d):
+        """The service run of an accepted schema with services (family svc): the generated interfaces implemented on the
+        script engine.  The out-message type of the streaming method is the imported message when the schema imports pkgb."""
+        rec = c["rec"]
+        tmpl = open(os.path.join(HARNESS, "lgenrt", "svc.go.tmpl")).read()
+        if rec["shape"] == "none":
+            sub = {"@EXTIMPORT@": "", "@EXTTYPE@": "pkga.Sub", "@EXTOPEN@": "pkga.OpenSub"}
+        else:
+            sub = {"@EXTIMPORT@": '\tpkgb "gen/%s/pkgb"' % c["id"], "@EXTTYPE@": "pkgb.Ext", "@EXTOPEN@": "pkgb.OpenExt"}
+        sub["@CID@"] = c["id"]
+        for k, v in sub.items():
+            tmpl = tmpl.replace(k, v)
+        with open(os.path.join(d, "svc.go"), "w") as fh:
+            fh.write(tmpl)
+        c["svc_run"] = True
 
     # ---- step 3: drive the generated code -------------------------------------------------
     def drive(self):
@@ -291,7 +310,10 @@ class Pipeline:
                 if link and link["b"].get("id") in okids:
                     out["evolve"] = {"other": link["b"]["id"], "fields": link["fields"], "runs": link["runs"], "edits": link["edits"]}
                 fh.write(json.dumps(out) + "\n")
-        p = subprocess.run([binp, cases_file], capture_output=True, text=True, timeout=3000)
+        args = [binp, cases_file]
+        if self.svc_scripts:
+            args += [self.svc_scripts[0], str(self.svc_scripts[1]), str(self.svc_scripts[2])]
+        p = subprocess.run(args, capture_output=True, text=True, timeout=3000)
         if p.returncode != 0:
             raise Broken("driver of the generated code failed: %s" % (p.stdout + p.stderr)[-3000:])
         summary = None
